@@ -239,7 +239,8 @@ example :
     alHas d.st.cps 0 = true ∧ nameOf d 1 = some 0 ∧ nameOf d 2 = some 0 ∧
       resolve d [] 0 = some 0 ∧ resolve d [2, 1] 0 = some 0 := by decide
 
-/-- `ROLLBACK TO x` (and `CheckpointManager::delete(x)`) — which checkpoint is acted on, after ANY
+/-- `ROLLBACK TO x` (and, since 14af22de, `CheckpointManager::delete(x)`:
+    `ckdel_removes_exactly_the_target`) — which checkpoint is acted on, after ANY
     statement sequence, for EVERY target string and EVERY listing order: the checkpoint loaded is
     listed; if `x` is the id of a listed checkpoint it is THAT checkpoint; otherwise its name is `x`
     and no listed checkpoint named `x` has a later timestamp -/
@@ -455,17 +456,19 @@ example :
     (step (run {} ops) (.rollback 0 [])).2 = .err .notFound ∧
     (step (run {} ops) (.rollback 1000 [])).2 = .err .notFound := by decide
 
-/-- `CheckpointManager::delete(x)` (its own one-pass lookup, `resolveOld`): when accepted it unlists
-    exactly ONE checkpoint — a listed one whose id or name is `x`, at least as new as every listed
-    one whose id or name is `x`; the database content, every other listed checkpoint and the
-    archive are untouched — so by `retained_are_restorable` (whose statement sequences include
-    deletes) every checkpoint still listed can still be rolled back to -/
+/-- `CheckpointManager::delete(x)` (target resolved like `rollback`, /repo 14af22de): when accepted
+    it unlists exactly ONE checkpoint — if `x` is the id of a listed checkpoint, THAT checkpoint;
+    otherwise a listed one named `x`, at least as new as every listed one named `x`; the database
+    content, every other listed checkpoint and the archive are untouched — so by
+    `retained_are_restorable` (whose statement sequences include deletes) every checkpoint still
+    listed can still be rolled back to.  For EVERY statement sequence, target and listing order. -/
 theorem ckdel_removes_exactly_the_target (ops : List Op) (x : Nat) (o : List Nat) (d' : Db) :
     step (run {} ops) (.ckdel x o) = (d', .ok) →
-      ∃ i, resolveOld (run {} ops) o x = some i ∧ alHas (run {} ops).st.cps i = true ∧
-        (i = x ∨ nameOf (run {} ops) i = some x) ∧
-        (∀ j c c', blobOf (run {} ops) i = some c → alHas (run {} ops).st.cps j = true →
-          blobOf (run {} ops) j = some c' → (j = x ∨ c'.name = x) → c'.ts ≤ c.ts) ∧
+      ∃ i, resolve (run {} ops) o x = some i ∧ alHas (run {} ops).st.cps i = true ∧
+        (alHas (run {} ops).st.cps x = true → i = x) ∧
+        (alHas (run {} ops).st.cps x = false → nameOf (run {} ops) i = some x ∧
+          ∀ j c c', blobOf (run {} ops) i = some c → alHas (run {} ops).st.cps j = true →
+            blobOf (run {} ops) j = some c' → c'.name = x → c'.ts ≤ c.ts) ∧
         alHas d'.st.cps i = false ∧
         (∀ j, j ≠ i → alHas d'.st.cps j = alHas (run {} ops).st.cps j) ∧
         d'.st.md = (run {} ops).st.md ∧ d'.st.cache = (run {} ops).st.cache ∧
@@ -473,23 +476,31 @@ theorem ckdel_removes_exactly_the_target (ops : List Op) (x : Nat) (o : List Nat
   intro hstep
   have hinv : DbInv (run {} ops) := DbInv.init.run ops
   simp only [step, doCkDel] at hstep
-  cases hr : resolveOld (run {} ops) o x with
+  cases hr : resolve (run {} ops) o x with
   | none => rw [hr] at hstep; exact absurd (congrArg Prod.snd hstep) (by simp)
   | some i =>
     rw [hr] at hstep
     have hd := (congrArg Prod.fst hstep).symm
     simp only at hd
     subst hd
-    obtain ⟨ts, hm, hmatch, hnew⟩ := resolveOld_some _ o x i hr
-    refine ⟨i, rfl, resolveOld_live _ o x i hr, ?_, ?_, ?_, ?_, rfl, rfl, rfl, rfl, rfl⟩
-    · simpa [ckMatches] using hmatch
-    · intro j c c' hb hj hb' hx
-      have hts : ts = c.ts := (hinv.cpsTs _ hm c (blobOf_mem _ _ c hb).1 (blobOf_mem _ _ c hb).2).symm
-      have hmem := hinv.live_mem j hj c' hb'
-      have := hnew (j, c'.ts) (mem_ckList o _ hinv.cpsNodup _ hmem)
-        ((ckMatches_iff _ x j c'.ts c' hb').mpr hx)
-      simp only at this
-      omega
+    have hlive := resolve_live _ o x i hr
+    obtain ⟨ts, hm, hcase⟩ := resolve_some _ o x i hr
+    refine ⟨i, rfl, hlive, ?_, ?_, ?_, ?_, rfl, rfl, rfl, rfl, rfl⟩
+    · intro hx
+      have := hinv.resolve_id o x hx
+      rw [hr] at this
+      exact Option.some.inj this
+    · intro hx
+      rcases hcase with hid | ⟨_, hname, hnew⟩
+      · rw [hid] at hlive; rw [hlive] at hx; cases hx
+      · refine ⟨hname, ?_⟩
+        intro j c c' hb hj hb' hn
+        have hts : ts = c.ts := (hinv.cpsTs _ hm c (blobOf_mem _ _ c hb).1 (blobOf_mem _ _ c hb).2).symm
+        have hmem := hinv.live_mem j hj c' hb'
+        have := hnew (j, c'.ts) (mem_ckList o _ hinv.cpsNodup _ hmem)
+          (by unfold nameOf; rw [hb']; simp only [Option.map_some, hn])
+        simp only at this
+        omega
     · show alHas (alDel (run {} ops).st.cps i) i = false
       cases h : alHas (alDel (run {} ops).st.cps i) i with
       | false => rfl
@@ -509,14 +520,75 @@ example :
     (step (run {} ops) (.ckdel 1 [])).2 = .ok ∧ (step (run {} ops) (.ckdel 9 [])).2 = .err .notFound := by
   decide
 
-/-- the delete path was NOT repaired by fff752bd (`CheckpointManager::delete` does not call
-    `find_by_id_or_name`): `delete(<id of c0>)` unlists the newer checkpoint c1 that is NAMED with
-    c0's id string, c0 stays listed — while `ROLLBACK TO <id of c0>` reaches c0.  Manual deletes
-    are outside the property's quantifier; recorded by the harness as an observation. -/
+/-- the statement the repair 14af22de makes true, for EVERY reachable database, EVERY listed id and
+    EVERY listing order: `CheckpointManager::delete(<id of a listed checkpoint>)` is accepted and
+    unlists THAT checkpoint and no other — whatever the other checkpoints are named (names equal
+    to that id string included); the data, the engines and the archive are untouched -/
+theorem ckdel_by_listed_id_removes_that_checkpoint (ops : List Op) (i : Nat) (o : List Nat) :
+    alHas (run {} ops).st.cps i = true →
+      (step (run {} ops) (.ckdel i o)).2 = .ok ∧
+      alHas (step (run {} ops) (.ckdel i o)).1.st.cps i = false ∧
+      (∀ j, j ≠ i →
+        alHas (step (run {} ops) (.ckdel i o)).1.st.cps j = alHas (run {} ops).st.cps j) ∧
+      (step (run {} ops) (.ckdel i o)).1.st.md = (run {} ops).st.md ∧
+      (step (run {} ops) (.ckdel i o)).1.st.cache = (run {} ops).st.cache ∧
+      (step (run {} ops) (.ckdel i o)).1.st.rel = (run {} ops).st.rel ∧
+      (step (run {} ops) (.ckdel i o)).1.eng = (run {} ops).eng ∧
+      (step (run {} ops) (.ckdel i o)).1.arch = (run {} ops).arch := by
+  intro hl
+  have hr := (DbInv.init.run ops).resolve_id o i hl
+  have hs : step (run {} ops) (.ckdel i o) =
+      ({ run {} ops with st := { (run {} ops).st with cps := alDel (run {} ops).st.cps i } }, .ok) := by
+    simp only [step, doCkDel, hr]
+  obtain ⟨k, hk, _, hid, _, hgone, hrest, h1, h2, h3, h4, h5⟩ :=
+    ckdel_removes_exactly_the_target ops i o _ hs
+  have hki : k = i := hid hl
+  subst hki
+  rw [hs]
+  exact ⟨rfl, hgone, hrest, h1, h2, h3, h4, h5⟩
+
+/-- non-vacuity: c0 is listed and TWO newer listed checkpoints are named with its id string;
+    `delete(<id of c0>)` unlists c0 for each listing order and leaves the two others -/
+example :
+    let ops : List Op := [.kput 0 0 1 none, .ckpt 5 [] 1000, .kput 0 0 2 none, .ckpt 6 [] 0, .ckpt 6 [] 0]
+    alHas (run {} ops).st.cps 0 = true ∧ nameOf (run {} ops) 1 = some 0 ∧ nameOf (run {} ops) 2 = some 0 ∧
+      qCkpts (step (run {} ops) (.ckdel 0 [])).1 = [1, 2] ∧
+      qCkpts (step (run {} ops) (.ckdel 0 [2, 1])).1 = [1, 2] ∧
+      qRaw (step (run {} ops) (.ckdel 0 [])).1 = [(.plain 0, .raw (some 2) none)] := by decide
+
+/-- what was wrong before /repo 14af22de (`doCkDelOld`: `CheckpointManager::delete` had its own
+    one-pass id-or-name lookup, which fff752bd had not touched): `delete(<id of c0>)` was accepted
+    and unlisted the newer checkpoint c1 that is merely NAMED with c0's id string, c0 stayed
+    listed — while `ROLLBACK TO <id of c0>` reached c0.  With the present resolution the same
+    statement unlists c0 and leaves c1. -/
 theorem ckdel_id_shadowed_by_name_witness :
     let d := run {} [.kput 0 0 1 none, .ckpt 5 [] 1000, .kput 0 0 2 none, .ckpt 6 [] 0, .kput 0 0 3 none]
-    qCkpts d = [0, 1] ∧ (step d (.ckdel 0 [])).2 = .ok ∧ qCkpts (step d (.ckdel 0 [])).1 = [0] ∧
-      resolve d [] 0 = some 0 := by decide
+    qCkpts d = [0, 1] ∧ resolve d [] 0 = some 0 ∧
+    -- before the repair
+    (doCkDelOld d 0 []).2 = .ok ∧ qCkpts (doCkDelOld d 0 []).1 = [0] ∧
+    -- the code as it is
+    (step d (.ckdel 0 [])).2 = .ok ∧ qCkpts (step d (.ckdel 0 [])).1 = [1] := by decide
+
+/-- the repair of the delete path is narrow: for EVERY database, order and target the old and the
+    present `delete` do the same unless the target string is both the id of a listed checkpoint
+    and the name of a listed checkpoint -/
+theorem ckdel_changed_only_when_shadowed (ops : List Op) (x : Nat) (o : List Nat) :
+    (alHas (run {} ops).st.cps x = false ∨
+      ∀ j, alHas (run {} ops).st.cps j = true → nameOf (run {} ops) j ≠ some x) →
+    doCkDelOld (run {} ops) x o = step (run {} ops) (.ckdel x o) := by
+  intro h
+  simp only [step, doCkDelOld, doCkDel, resolution_changed_only_when_shadowed ops x o h]
+
+example :
+    let d := run {} [.ckpt 5 [] 1007, .ckpt 6 [] 1007, .ckpt 7 [] 1001]
+    alHas d.st.cps 1007 = false ∧ qCkpts (doCkDelOld d 1007 []).1 = [0, 2] ∧
+      qCkpts (step d (.ckdel 1007 [])).1 = [0, 2] ∧
+      (∀ j, alHas d.st.cps j = true → nameOf d j ≠ some 2) ∧ qCkpts (doCkDelOld d 2 []).1 = [0, 1] := by
+  refine ⟨by decide, by decide, by decide, ?_, by decide⟩
+  intro j hj
+  have : j < 3 := (DbInv.init.run [.ckpt 5 [] 1007, .ckpt 6 [] 1007, .ckpt 7 [] 1001]).cpsLt j hj
+  have h3 : j = 0 ∨ j = 1 ∨ j = 2 := by omega
+  rcases h3 with e | e | e <;> subst e <;> decide
 
 /-- `CheckpointManager::list(Some n)` / `CHECKPOINTS LIMIT n`: for every database, order and limit
     the answer has `min n (listed)` entries, all listed, newest first, and nothing left out is
